@@ -74,7 +74,13 @@ def run(ctx, replay=None):
         lines = judge(ctx, tla, tf, "case")
     # overlapping evaluations of one monad, and reconfiguration while an evaluation is in flight
     cf2 = os.path.join(ctx.scratch, "c11.conc.ndjson")
-    ctx.drv(["c11", "conc", "--out", cf2, "--repeat", 3 if quick else 40], timeout=900)
+    pc, crash = ctx.drv_crashable(["c11", "conc", "--out", cf2, "--repeat", 3 if quick else 40], timeout=900)
+    if crash:          # e.g. an unbounded recursion in the library (fatal stack overflow) under the nested / overlapping evaluations
+        ctx.report("process crash in overlapping / nested evaluations: %s in %s" % (crash["panic"], crash["frame"].split("(")[0]),
+                   "the driver died while evaluating one monad from several goroutines / from inside its own effect: %s" % crash["stderr"][-1500:], {"component": "c11-conc", "crash": crash})
+        ctx.cov["cases_generated_by_tlc"] = ncases
+        ctx.cov["distinct_nontrivial"] = ncases - nprogs * 2
+        return ctx.finish(RULE)
     r2 = ctx.tlc("Trace_MonadIOConc", workers=1, timeout=600, cwd=tla, env_extra={"VERIF_TRACE": cf2})
     cons = r2.printed("CONSUMED")
     if not cons:
